@@ -1,4 +1,5 @@
 mod conv;
+mod policy;
 mod prog;
 mod props;
 mod subject;
